@@ -8,7 +8,8 @@ Import ListNotations.
 Require Import MD.Gen.DescTables MD.Gen.DescFormulas.
 Local Open Scope Q_scope.
 
-Definition qsum (l : list Q) : Q := fold_right Qplus 0 l.
+(* sum, kept in lowest terms after every addition (Qred q == q) so that vm_compute stays small *)
+Definition qsum (l : list Q) : Q := fold_right (fun x acc => Qred (x + acc)) 0 l.
 
 Definition qvec := (Q * Q * Q)%type.
 Definition zvec := (Z * Z * Z)%type.
@@ -95,11 +96,20 @@ Definition sf1 (l : qvec) : Q := vx l + vy l + vz l.
 Definition sf2 (l : qvec) : Q := vx l * vy l + vx l * vz l + vy l * vz l.
 Definition sf3 (l : qvec) : Q := vx l * vy l * vz l.
 
+(* documented closed forms of the descriptors in the ascending principal moments l0 <= l1 <= l2
+   (the executable comparison uses these; Props/C16.v proves the formulas regenerated from shape.py equal them) *)
+Definition spec_asphericity (l0 l1 l2 : Q) : Q := l2 - (l0 + l1) / (2 # 1).
+Definition spec_acylindricity (l0 l1 l2 : Q) : Q := l1 - l0.
+Definition spec_kappa2 (l0 l1 l2 : Q) : Q :=
+  (3 # 2) * (l0 * l0 + l1 * l1 + l2 * l2) / ((l0 + l1 + l2) * (l0 + l1 + l2)) - (1 # 2).
+
 (* relative shape anisotropy directly from the tensor invariants: 3/2 tr(S^2)/tr(S)^2 - 1/2 *)
 Definition kappa2_of_tensor (s : sym3) : Q := (3 # 2) * trsq3 s / (tr3 s * tr3 s) - (1 # 2).
 
 (* ------------------------------------------------------------------ density, dipole *)
 Definition density (ms : list Q) (volume : Q) : Q := density_formula (qsum ms) volume.
+(* documented: total mass / volume, converted from Da/nm^3 to kg/m^3 (CODATA 2018 atomic mass constant) *)
+Definition spec_density (ms : list Q) (volume : Q) : Q := qsum ms / volume * (166053906660 # 100000000000).
 
 (* sum_i q_i (r_i - a): one component *)
 Definition dipole_about (a : Q) (qs xs : list Q) : Q :=
@@ -129,7 +139,7 @@ Definition run_com_sym (c : Q * Z * list string * list (list zvec)) : Q * list Q
   (tol, flat_map (fun f => vec_list (center_of_mass (map mass_of syms) f)) (map (map (to_q unit)) frames)).
 
 Definition run_density_sym (c : Q * list string * list Q) : Q * list Q :=
-  let '(tol, syms, vols) := c in (tol, map (density (map mass_of syms)) vols).
+  let '(tol, syms, vols) := c in (tol, map (spec_density (map mass_of syms)) vols).
 
 (* case = (tolerance, unit, masses, frames); result = com of every frame, flattened *)
 Definition run_com (c : Q * Z * list Q * list (list zvec)) : Q * list Q :=
@@ -172,9 +182,9 @@ Definition run_moments (c : Q * Z * list (list zvec * qvec)) : Q * list Q :=
 Definition shape_residuals (pts : list qvec) (lam : qvec) (b c k : Q) : list Q :=
   let s := gyration pts in
   let t := tr3 s in
-  [(b - shape_asphericity (vx lam) (vy lam) (vz lam)) / t;
-   (c - shape_acylindricity (vx lam) (vy lam) (vz lam)) / t;
-   k - shape_kappa2 (vx lam) (vy lam) (vz lam);
+  [(b - spec_asphericity (vx lam) (vy lam) (vz lam)) / t;
+   (c - spec_acylindricity (vx lam) (vy lam) (vz lam)) / t;
+   k - spec_kappa2 (vx lam) (vy lam) (vz lam);
    k - kappa2_of_tensor s].
 
 Definition run_shape (c : Q * Z * list (list zvec * qvec * (Q * Q * Q))) : Q * list Q :=
@@ -184,7 +194,7 @@ Definition run_shape (c : Q * Z * list (list zvec * qvec * (Q * Q * Q))) : Q * l
 
 (* density per frame: (tolerance, masses, volumes) *)
 Definition run_density (c : Q * list Q * list Q) : Q * list Q :=
-  let '(tol, ms, vols) := c in (tol, map (density ms) vols).
+  let '(tol, ms, vols) := c in (tol, map (spec_density ms) vols).
 
 (* relative closeness for density-like positive magnitudes: |a-b| <= tol * |b| *)
 Fixpoint qlist_close_rel (tol : Q) (a b : list Q) : bool :=
